@@ -93,3 +93,79 @@ Print Assumptions C18_clear_cache_returns.
 Theorem C18_unlink_is_remove_first : forall l p, unlink l p = remove_first l p.
 Proof. exact unlink_remove_first. Qed.
 Print Assumptions C18_unlink_is_remove_first.
+
+(* --------------------------------------------------------------------------------------------------------------
+   The cache of the model IS the source: the 17 member functions of SimpleStringInternalCache as tools/cxx2heap.py regenerates them from SimpleStringInternalCache.cpp on every run (gen/Gen_HeapC18.v; C18_HeapRep.v: blk_cells / node_cells / cache_cells / chain / rep, ids relates header heap blocks to the model's allocation ordinals, erase reads the ghost allocator events as the model's EA / EF), run on a heap that represents a model state, return what the model's alloc / dealloc / clear_cache / clear_all return, make exactly the model's allocator calls, warn exactly when the model warns, and leave a heap that represents the model's new state; every block outside the cache structure is unchanged
+   -------------------------------------------------------------------------------------------------------------- *)
+From CppUVerif Require Import lib.CSem lib.CMem lib.CHeap gen.Gen_C18 gen.Gen_HeapC18 C18_HeapRep C18_HeapTie.
+Local Open Scope Z_scope.
+Theorem C18_layout_is_the_source :
+  off_SimpleStringMemoryBlock_next_ = Z0 /\
+  off_SimpleStringMemoryBlock_memory_ = Zpos 1 /\
+  cells_SimpleStringMemoryBlock = Zpos 2 /\
+  off_SimpleStringInternalCacheNode_size_ = Z0 /\
+  off_SimpleStringInternalCacheNode_freeMemoryHead_ = Zpos 1 /\
+  off_SimpleStringInternalCacheNode_usedMemoryHead_ = Zpos 2 /\
+  cells_SimpleStringInternalCacheNode = Zpos 3 /\
+  off_SimpleStringInternalCache_allocator_ = Z0 /\
+  off_SimpleStringInternalCache_cache_ = Zpos 1 /\
+  off_SimpleStringInternalCache_nonCachedAllocations_ = Zpos 2 /\
+  off_SimpleStringInternalCache_hasWarnedAboutDeallocations = Zpos 3 /\
+  cells_SimpleStringInternalCache = Zpos 4 /\
+  sizeof_SimpleStringMemoryBlock = BinInt.Z.of_N block_hdr_size /\
+  sizeof_SimpleStringInternalCacheNode = BinInt.Z.of_N cache_node_size /\
+  (forall (b : mblock) (nxt : hptr), length (blk_cells b nxt) = BinInt.Z.to_nat cells_SimpleStringMemoryBlock) /\
+  (forall (nd : mnode) (pf pu : hptr),
+  length (node_cells nd pf pu) = BinInt.Z.to_nat cells_SimpleStringInternalCacheNode) /\
+  (forall (al : Z) (bn : nat) (pn : hptr) (w : bool),
+  length (cache_cells al bn pn w) = BinInt.Z.to_nat cells_SimpleStringInternalCache).
+Proof. exact layout_is_the_source. Qed.
+Print Assumptions C18_layout_is_the_source.
+
+Theorem C18_src_cache_alloc_spec :
+  forall (fuel : nat) (h : heap) (evs : list hev) (this : hptr) (ids : list (nat * N))
+  (L : lay) (st : state) (n : N),
+  rep h this ids L st ->
+  fuel_ok fuel st ->
+  exists (h' : heap) (evs' : list hev) (nx' : Z) (ids' : list (nat * N)) (L' : lay)
+  (id : N),
+  o_ret (snd (alloc st n)) = Some id /\
+  src_cache_alloc fuel h evs (BinInt.Z.of_N (s_next st)) this (BinInt.Z.of_N n) =
+  FOk (BinInt.Z.of_N id, h', evs', nx') /\
+  (ids' = ids \/ ids' = (length h, s_next st) :: ids) /\
+  tie_post h evs L this (alloc st n) h' evs' nx' ids' L'.
+Proof. exact src_cache_alloc_spec. Qed.
+Print Assumptions C18_src_cache_alloc_spec.
+
+Theorem C18_src_cache_dealloc_spec :
+  forall (fuel : nat) (h : heap) (evs : list hev) (this : hptr) (ids : list (nat * N))
+  (L : lay) (st : state) (p : mptr) (n : N),
+  rep h this ids L st ->
+  fuel_ok fuel st ->
+  exists (h' : heap) (evs' : list hev) (nx' : Z) (L' : lay),
+  src_cache_dealloc fuel h evs (BinInt.Z.of_N (s_next st)) this (addr_of p) (BinInt.Z.of_N n) =
+  FOk (tt, h', evs', nx') /\
+  o_ret (snd (dealloc st p n)) = None /\ tie_post h evs L this (dealloc st p n) h' evs' nx' ids L'.
+Proof. exact src_cache_dealloc_spec. Qed.
+Print Assumptions C18_src_cache_dealloc_spec.
+
+Theorem C18_src_cache_clearCache_spec :
+  forall (fuel : nat) (h : heap) (evs : list hev) (this : hptr) (ids : list (nat * N)) (L : lay) (st : state),
+  rep h this ids L st ->
+  fuel_ok fuel st ->
+  exists (h' : heap) (evs' : list hev) (nx' : Z) (L' : lay),
+  src_cache_clearCache fuel h evs (BinInt.Z.of_N (s_next st)) this = FOk (tt, h', evs', nx') /\
+  o_ret (snd (clear_cache st)) = None /\ tie_post h evs L this (clear_cache st) h' evs' nx' ids L'.
+Proof. exact src_cache_clearCache_spec. Qed.
+Print Assumptions C18_src_cache_clearCache_spec.
+
+Theorem C18_src_cache_clearAll_spec :
+  forall (fuel : nat) (h : heap) (evs : list hev) (this : hptr) (ids : list (nat * N)) (L : lay) (st : state),
+  rep h this ids L st ->
+  fuel_ok fuel st ->
+  exists (h' : heap) (evs' : list hev) (nx' : Z) (L' : lay),
+  src_cache_clearAllIncludingCurrentlyUsedMemory fuel h evs (BinInt.Z.of_N (s_next st)) this =
+  FOk (tt, h', evs', nx') /\
+  o_ret (snd (clear_all st)) = None /\ tie_post h evs L this (clear_all st) h' evs' nx' ids L'.
+Proof. exact src_cache_clearAll_spec. Qed.
+Print Assumptions C18_src_cache_clearAll_spec.
